@@ -7,6 +7,8 @@ import Cascette.Model.Jenkins
 import Cascette.Model.Arc4
 import Cascette.Model.Simd
 import Cascette.Spec.Md5
+import Cascette.Spec.Rc4
+import Cascette.Model.HashGuards
 open Cascette Drv
 
 def w32? (s : String) : Option W32 := s.toNat?.map (BitVec.ofNat 32)
@@ -48,6 +50,41 @@ def handle : List String → String
         hexOf (o1 ++ o2)
       | none => "err"
     | _, _, _ => "bad-op"
+  | ["arc4c", k, m] =>
+    -- the CHECKED model: `panic` where an index would be out of bounds
+    match parseHex k, parseHex m with
+    | some k, some m =>
+      match Model.Arc4.Checked.new k with
+      | none => if (Model.Arc4.new k).isSome then "panic" else "err"
+      | some c =>
+        match Model.Arc4.Checked.apply c m with
+        | some (_, o) => hexOf o
+        | none => "panic"
+    | _, _ => "bad-op"
+  | ["rc4", k, m] =>
+    -- the SPECIFICATION itself (Spec/Rc4: permutation function, mod-256 arithmetic)
+    match parseHex k, parseHex m with
+    | some k, some m =>
+      match Spec.Rc4.crypt k m with
+      | some o => hexOf o
+      | none => "err"
+    | _, _ => "bad-op"
+  | ["cka", h] =>
+    match parseHex h with
+    | some h => if h.length ≠ 30 then "bad-op" else hexFixed 8 (Model.HashGuards.checksumA h).toNat
+    | _ => "bad-op"
+  | ["lhv", base, h] =>
+    match base.toNat?, parseHex h with
+    | some base, some h => if h.length ≠ 30 then "bad-op" else toString (Model.HashGuards.lhdrValidate base h)
+    | _, _ => "bad-op"
+  | ["hg", e] =>
+    match parseHex e with
+    | some e => if e.length ≠ 24 then "bad-op" else hexFixed 8 (Model.HashGuards.hashGuard e).toNat
+    | _ => "bad-op"
+  | ["upv", e] =>
+    match parseHex e with
+    | some e => if e.length ≠ 24 then "bad-op" else toString (Model.HashGuards.updValidate e)
+    | _ => "bad-op"
   | ["hl", seed, m] =>
     match w32? seed, parseHex m with
     | some s, some m => hexFixed 8 (Model.Jenkins.hashlittle m s).toNat
